@@ -480,6 +480,12 @@ func compare(h History, obs []Obs, model string) (ok bool, note string, failing 
 				if o.Result == "nil" && o.Threads[t].Filters < mf {
 					fail = fmt.Sprintf("%s: nil result but thread %d has %d filters (expected %d)", where, t, o.Threads[t].Filters, mf)
 				}
+				if op.Op == "load" && t == op.Thread && op.NNP && o.Threads[t].NNP == 0 && mn == 1 {
+					fail = fmt.Sprintf("%s: NoNewPrivs was requested but the bit is not set on the installing thread %d (result %s)", where, t, o.Result)
+				}
+				if op.Op == "load" && !op.NNP && o.Threads[t].NNP == 1 && mn == 0 {
+					fail = fmt.Sprintf("%s: NoNewPrivs was not requested but thread %d has the bit now", where, t)
+				}
 				if o.Result != "nil" && (o.Threads[t].Filters > mf || o.Threads[t].NNP > mn) {
 					fail = fmt.Sprintf("%s: failed load changed thread %d (filters %d, nnp %d; expected %d, %d)", where, t, o.Threads[t].Filters, o.Threads[t].NNP, mf, mn)
 				}
